@@ -318,7 +318,7 @@ impl<'a> Gen<'a> {
             if st == "Master" && self.slave_only_from_start {
                 self.out.oracle("C08", "slave-only-instance-has-master", &format!("{line} -> port {} is Master on an instance configured slave-only from the start", i + 1));
             }
-            if st == "Master" && self.slave_only_now && self.bmca_since_slave_only && w.first() == Some(&"BMCA") {
+            if st == "Master" && self.slave_only_now && self.bmca_since_slave_only {
                 self.out.oracle("C08", "master-after-slave-only-and-bmca", &format!("{line} -> port {} still Master after slave-only was switched on and a BMCA run completed", i + 1));
             }
         }
